@@ -173,7 +173,10 @@ fn run_session(pie: &mut Pie<Trk>, scn: &Scenario, acts: &[Act], probe: bool) {
   let mut nerr: i64 = -1;
   {
     let mut session = pie.new_session();
+    let mut aborted = false;
     for act in acts {
+      // a retrying caller keeps the session after a caught panic, for further top-down builds only
+      if aborted && !matches!(act, Act::Req { .. }) { break; }
       match act {
         Act::Req { t } => {
           emit(json!({"ev":"root_call","t":t}));
@@ -184,7 +187,8 @@ fn run_session(pie: &mut Pie<Trk>, scn: &Scenario, acts: &[Act], probe: bool) {
               let (kind, msg) = panic_kind(&p);
               world::with(|w| w.depth = 0);
               emit(json!({"ev":"root_panic","t":t,"kind":kind,"msg":msg}));
-              break;
+              if !scn.retry { break; }
+              aborted = true;
             }
           }
         }
